@@ -16,7 +16,7 @@ RULE = (
     "entries inside real visits or padding"
 )
 REQUIRED = {"cmp_state_terms": 150, "cmp_suffstats": 150, "cmp_mstep": 60, "cmp_personalize": 20, "cmp_fit": 10, "twins_garbage": 30, "twins_widened": 12,
-            "masked_in_visit_entries_cases": 8, "padding_cases": 12, "cmp_reput": 100, "cmp_noise_recount": 15, "cmp_noise_recount_frozen_state_averaged_steps": 20, "algebra_compared": 300, "fit_initialisations_checked": 60,
+            "masked_in_visit_entries_cases": 8, "padding_cases": 12, "cmp_reput": 100, "cmp_noise_recount": 15, "cmp_noise_recount_frozen_state_averaged_steps": 20, "algebra_compared": 300, "fit_initialisations_checked": 60, "cmp_benchmark_padding": 100, "cmp_used_dataset_with_entries_hidden_in_place": 10,
             "algebra_compared_int_weights": 40, "algebra_compared_graded_weights": 40}
 ASSUMPTIONS = [
     "garbage twins: bit-identity demanded (same shapes and op order; masked numbers must never enter a sum)",
@@ -35,6 +35,56 @@ def shards(tier, seed):
     q = tier == "quick"
     return ([{"name": f"twins-{k}", "k": k, "n": 4 if q else 60, "budget_s": 170 if q else 1500} for k in range(16)]
             + [{"name": f"algebra-{k}", "kind": "algebra", "k": k, "n": 400 if q else 6000, "budget_s": 60 if q else 600} for k in range(2)])
+
+
+def _benchmark_padding(spec, ctx):
+    """Benchmark (constant) model: what it predicts for an individual does not depend on how much padding its row gets, i.e. on how many visits
+    the OTHER individuals of the cohort have - whatever the origin of the time axis (ages, or years before / after an event)."""
+    import warnings
+
+    import numpy as np
+    import pandas as pd
+
+    from leaspy.io.data import Data, Dataset
+    from leaspy.models import ConstantModel
+
+    for j in range(12):
+        r = ctx.rng("bench-pad", spec["k"], j)
+        nf = int(r.integers(1, 4))
+        feats = [f"F{k}" for k in range(nf)]
+        origin = float(r.choice([70.0, 0.0, -30.0]))
+        rows = []
+        n_short = int(r.integers(1, 4))
+        t0 = np.sort(np.round(origin + r.uniform(-8, 8, size=n_short), 2))
+        t0 = np.unique(t0)
+        for t in t0:
+            rows.append(["target", float(t)] + [float(x) if r.random() > 0.25 else np.nan for x in r.random(nf)])
+        alone = pd.DataFrame(rows, columns=["ID", "TIME"] + feats)
+        if alone[feats].isna().all(axis=None):
+            alone.loc[0, feats[0]] = 0.5
+        others = []
+        for s_ in range(int(r.integers(1, 4))):
+            for t in np.unique(np.round(origin + r.uniform(-10, 10, size=int(r.integers(len(t0) + 1, len(t0) + 5))), 2)):
+                others.append([f"other{s_}", float(t)] + list(r.random(nf)))
+        cohort = pd.concat([alone, pd.DataFrame(others, columns=["ID", "TIME"] + feats)], ignore_index=True)
+        for ptype in ("last", "last_known", "max", "mean"):
+            with warnings.catch_warnings():
+                warnings.simplefilter("ignore")
+                try:
+                    a = ConstantModel("constant").personalize(Dataset(Data.from_dataframe(alone, drop_full_nan=False)), "constant_prediction", prediction_type=ptype)["target"]
+                    b = ConstantModel("constant").personalize(Dataset(Data.from_dataframe(cohort, drop_full_nan=False)), "constant_prediction", prediction_type=ptype)["target"]
+                except Exception as e:
+                    ctx.note(f"benchmark_padding_skipped_{type(e).__name__}", str(e)[:160])
+                    continue
+            ctx.count("cmp_benchmark_padding")
+            ctx.evaluated()
+            va = np.array([np.asarray(a[f], dtype=float).reshape(-1)[0] for f in feats])
+            vb = np.array([np.asarray(b[f], dtype=float).reshape(-1)[0] for f in feats])
+            if not np.array_equal(va, vb, equal_nan=True):
+                ctx.violation("masked/benchmark/padding", f"constant model ({ptype}): the prediction for an individual changes when it is personalised inside a cohort whose "
+                              "other individuals have more visits (its row gets padded)", {"index": -1 - j, "model": ["constant"], "prediction_type": ptype, "time_origin": origin},
+                              alone=va.tolist(), in_cohort=vb.tolist(), ages=t0.tolist())
+                break
 
 
 def _algebra(spec, ctx):
@@ -190,6 +240,8 @@ def run_shard(spec, ctx):
 
     if spec.get("kind") == "algebra":
         return _algebra(spec, ctx)
+    if spec.get("k", 99) < 4:
+        _benchmark_padding(spec, ctx)
     install_contract()
 
     def tensors_of(v):
@@ -391,6 +443,44 @@ def run_shard(spec, ctx):
             if has_in_visit or has_pad:
                 for fam in ("state_terms", "suffstats", "mstep", "personalize"):
                     ctx.distinct(case["model"], missing, twin_kind, gname or w, fam)
+        # ---- a Dataset object that already served, whose missing-data pattern is then changed by the caller (entries hidden in place): every
+        # consumer - the table-based ones included - must see the new pattern, i.e. answer like a dataset freshly built with those entries missing
+        if kind not in ("joint", "mixture_logistic") and noise != "bernoulli":
+            try:
+                import pandas as _pd
+
+                from leaspy.io.data import Data as _Data, Dataset as _Dataset
+
+                rr2 = ctx.rng("used-dataset", spec["k"], i)
+                used_ds = gen.to_dataset(df)
+                with contextlib.redirect_stdout(io.StringIO()):
+                    model.personalize(used_ds, "scipy_minimize", seed=seed_p, progress_bar=False, use_jacobian=False)  # the dataset has served once
+                obs_ = used_ds.mask != 0
+                hide = obs_ & torch.tensor(rr2.random(tuple(used_ds.mask.shape)) < 0.3)
+                for f_ in range(used_ds.mask.shape[-1]):
+                    if (obs_[..., f_] & ~hide[..., f_]).sum() < 2:
+                        hide[..., f_] = False
+                used_ds.mask[hide] = 0  # in place, on the very object
+                rows_ = []
+                for a_, sid_ in enumerate(used_ds.indices):
+                    for v_ in range(int(used_ds.n_visits_per_individual[a_])):
+                        rows_.append([sid_, float(used_ds.timepoints[a_, v_])] + [float(used_ds.values[a_, v_, f_]) if used_ds.mask[a_, v_, f_] != 0 else float("nan")
+                                                                                for f_ in range(used_ds.mask.shape[-1])])
+                fresh_df = _pd.DataFrame(rows_, columns=["ID", "TIME"] + list(used_ds.headers))
+                fresh_ds = _Dataset(_Data.from_dataframe(fresh_df, drop_full_nan=False))
+                with contextlib.redirect_stdout(io.StringIO()):
+                    ip_u = model.personalize(used_ds, "scipy_minimize", seed=seed_p, progress_bar=False, use_jacobian=False).to_pytorch()
+                    ip_f = model.personalize(fresh_ds, "scipy_minimize", seed=seed_p, progress_bar=False, use_jacobian=False).to_pytorch()
+                ctx.count("cmp_used_dataset_with_entries_hidden_in_place")
+                ctx.evaluated()
+                if ip_u[0] != ip_f[0] or any(not sh.same(ip_u[1][k_], ip_f[1][k_], rtol=1e-5, atol=1e-6) for k_ in ip_u[1]):
+                    ctx.violation("masked/personalize/hidden-entries-still-used", "scipy_minimize on a dataset that already served, after entries were hidden in place (mask set to 0), "
+                                  "differs from the result on a dataset freshly built with those entries missing",
+                                  {"index": i, "model": list(map(str, g)), "missing": missing, "twin": "used-dataset-mask-edited"})
+            except Exception as e:
+                ctx.count("used_dataset_relation_skipped")
+                ctx.note(f"used_dataset_relation_skipped_{type(e).__name__}", str(e)[:200])
+
         # ---- what the FIT itself loads (its own initialisation path): every observed entry, whatever the padding / trailing empty visits -------
         try:
             from vf.checks.c02 import make_algo as _mk
